@@ -187,27 +187,30 @@ func (db *DB) Delete(key []byte) {
 }
 
 func (db *DB) Get(key []byte) (kv.Entry, error) {
-	sstables := db.currentSSTables()
-	verifhook.At("dkv.get.between", db)
-
-	// First try to get from the memtables
+	// First try to get from the memtables. The memtables must be read before
+	// capturing the current sstables: a flush moves entries from the memtables
+	// to the sstables, so reading in the other order can miss an entry that is
+	// flushed in between.
 	v, err := db.mtables.Get(key)
 	if err == nil {
 		return v, nil
 	}
+	verifhook.At("dkv.get.between", db)
 
 	// Then try the SSTables
 	if err == kv.ErrNotFound {
-		return sstables.Get(key)
+		return db.currentSSTables().Get(key)
 	}
 
 	return nil, err
 }
 
 func (db *DB) ScanPrefix(prefix []byte, errOut *error) iter.Seq[kv.Entry] {
-	sstables := db.currentSSTables()
+	// Capture the memtables before the sstables (see Get).
+	memEntries := db.mtables.ScanPrefix(prefix, errOut)
 	verifhook.At("dkv.scan.between", db)
-	iters := []iter.Seq[kv.Entry]{db.mtables.ScanPrefix(prefix, errOut), sstables.ScanPrefix(prefix, errOut)}
+	sstables := db.currentSSTables()
+	iters := []iter.Seq[kv.Entry]{memEntries, sstables.ScanPrefix(prefix, errOut)}
 	return kv.MergeEntries(iters)
 }
 
